@@ -1151,3 +1151,43 @@ fault("c20-sigpipe-default-disposition", "C20", "R20h",
       (SIGH, "def setsigtermhandler():\n", "def setsigpipehandler():\n    signal.signal(signal.SIGPIPE, signal.SIG_DFL)\n\n\ndef setsigtermhandler():\n"))
 twin("c20-twin-sigpipe-explicitly-ignored", "C20",
      (SIGH, "def setsigtermhandler():\n", "def setsigpipehandler():\n    signal.signal(signal.SIGPIPE, signal.SIG_IGN)\n\n\ndef setsigtermhandler():\n"))
+
+# ======================================================================= round l
+HTMLH = "pygopherd/handlers/html.py"
+fault("c02-first-line-read-with-a-bound", "C02", "R02i",
+      (SERVER, "request = self.rfile.readline().decode(errors=\"surrogateescape\")", "request = self.rfile.readline(8192).decode(errors=\"surrogateescape\")"))
+fault("c06-gemini-query-form-decoded", "C06", "R06n",
+      (GEM, "        self.searchrequest = urllib.parse.unquote(\n", "        self.searchrequest = urllib.parse.unquote_plus(\n"))
+fault("c07-ignored-dot-file-parsed", "C07", "R07r",
+      (UMN, "        if super().prep_initfiles_canaddfile(ignorepatt, pattern, file):\n            # If the parent says it's OK, then let's see if it's\n            # a link file.  If yes, process it and return false.\n            if file[0] == \".\":\n",
+       "        listed = super().prep_initfiles_canaddfile(ignorepatt, pattern, file)\n        if listed or file[0] == \".\":\n            # If the parent says it's OK, then let's see if it's\n            # a link file.  If yes, process it and return false.\n            if file[0] == \".\":\n"))
+fault("c08-sidecar-split-at-every-separator", "C08", "R08h",
+      (GE, "\"\\n\".join([x.rstrip() for x in rfile.readlines(20480)]),", "\"\\n\".join([x.rstrip() for x in rfile.read(20480).splitlines()]),"))
+fault("c15-sidecar-split-at-every-separator", "C15", "R15e",
+      (GE, "\"\\n\".join([x.rstrip() for x in rfile.readlines(20480)]),", "\"\\n\".join([x.rstrip() for x in rfile.read(20480).splitlines()]),"))
+twin("c15-twin-sidecar-split-at-line-feeds", "C15",
+     (GE, "\"\\n\".join([x.rstrip() for x in rfile.readlines(20480)]),", "\"\\n\".join([x.rstrip() for x in rfile.read().split(\"\\n\")]),"))
+fault("c09-url-selector-needs-two-slashes", "C09", "R09a",
+      (GMAP, "if selector[0:1] != \"/\" and selector[0:4] != \"URL:\":  # Relative link", "if selector[0:1] != \"/\" and not re.match(\"URL:.+://\", selector):  # Relative link"))
+fault("c11-listing-saved-before-the-merge", "C11", "R11h",
+      (UMN, "            self.MergeLinkFiles()\n            self.fileentries.sort(key=functools.cmp_to_key(self.entrycmp))\n",
+       "            self.savecache()\n            self.MergeLinkFiles()\n            self.fileentries.sort(key=functools.cmp_to_key(self.entrycmp))\n            self.savecache()\n"))
+fault("c12-title-unbound-after-a-failed-read", "C12", "R12j",
+      (HTMLH, "        with self.vfs.open(self.getselector(), \"rb\") as fp:\n            while not parser.gotcompletetitle:\n                line = fp.readline()\n                if not line:\n                    break\n                # The PY3 HTML parser doesn't handle surrogateescape\n                parser.feed(line.decode(errors=\"replace\"))\n            parser.close()\n",
+       "        try:\n            fp = self.vfs.open(self.getselector(), \"rb\")\n        except OSError:\n            pass\n        with fp:\n            while not parser.gotcompletetitle:\n                line = fp.readline()\n                if not line:\n                    break\n                # The PY3 HTML parser doesn't handle surrogateescape\n                parser.feed(line.decode(errors=\"replace\"))\n            parser.close()\n"))
+twin("c12-twin-title-read-failure-returns", "C12",
+     (HTMLH, "        with self.vfs.open(self.getselector(), \"rb\") as fp:\n            while not parser.gotcompletetitle:\n                line = fp.readline()\n                if not line:\n                    break\n                # The PY3 HTML parser doesn't handle surrogateescape\n                parser.feed(line.decode(errors=\"replace\"))\n            parser.close()\n",
+      "        try:\n            fp = self.vfs.open(self.getselector(), \"rb\")\n        except OSError:\n            raise\n        with fp:\n            while not parser.gotcompletetitle:\n                line = fp.readline()\n                if not line:\n                    break\n                # The PY3 HTML parser doesn't handle surrogateescape\n                parser.feed(line.decode(errors=\"replace\"))\n            parser.close()\n"))
+fault("c17-slot-fillers-survive-the-expansion", "C17", "R17n",
+      (TALPY, "\t\t\t\t\t# End of the macro expansion (if any) so clear the parameters\n\t\t\t\t\tself.slotParameters = {}\n", "\t\t\t\t\t# End of the macro expansion (if any)\n"))
+fault("c18-false-condition-skips-the-locals", "C18", "R18i",
+      (TALPY, "\t\t\tself.outputTag = 0\n\t\t\tself.tagContent = None\n\t\t\tself.programCounter = self.symbolTable[args[1]]\n\t\t\treturn\n\t\tself.programCounter += 1\n",
+       "\t\t\tself.movePCForward,self.movePCBack,self.outputTag,self.originalAttributes,self.currentAttributes,self.repeatVariable,self.tagContent,self.localVarsDefined = self.scopeStack.pop()\n\t\t\tself.programCounter = self.symbolTable[args[1]] + 1\n\t\t\treturn\n\t\tself.programCounter += 1\n"))
+fault("c19-failed-bind-tolerated", "C19", "R19e",
+      (SERVER, "    def server_bind(self) -> None:\n        super().server_bind()\n", "    def server_bind(self) -> None:\n        try:\n            super().server_bind()\n        except OSError:\n            self.bind_pending = True\n            return\n"))
+twin("c19-twin-failed-bind-logged-and-raised", "C19",
+     (SERVER, "    def server_bind(self) -> None:\n        super().server_bind()\n", "    def server_bind(self) -> None:\n        try:\n            super().server_bind()\n        except OSError:\n            print(\"bind failed\")\n            raise\n"))
+fault("c13-row-built-then-formatted", "C13", "R13e",
+      (HTTP, "        retstr += '</TD><TD><FONT SIZE=\"-2\">'\n", "        retstr = (retstr + '</TD><TD><FONT SIZE=\"{size}\">').format(size=\"-2\")\n"))
+twin("c13-twin-row-piece-formatted-alone", "C13",
+     (HTTP, "        retstr += '</TD><TD><FONT SIZE=\"-2\">'\n", "        retstr += '</TD><TD><FONT SIZE=\"{size}\">'.format(size=\"-2\")\n"))
